@@ -205,6 +205,27 @@ pub fn cmd() -> i32 {
     }
     // ---------------- x86-64
     let mut xs: Vec<Vec<u8>> = vec![vec![0xC3], vec![0xFF, 0xE0], vec![0xE9, 0x10, 0, 0, 0], vec![0xE9, 0xFB, 0xFF, 0xFF, 0xFF], vec![0x48, 0xC7, 0xC0, 1, 0, 0, 0], vec![0xB8, 5, 0, 0, 0], vec![0x48, 0xB8, 1, 2, 3, 4, 5, 6, 7, 8]];
+    // every register of the register-parametrised forms
+    for r in 0..16u8 {
+        let (rexb, lo) = ((r >> 3) & 1, r & 7);
+        let mut v = vec![0x48 | rexb, 0xB8 + lo];
+        v.extend_from_slice(&next().to_le_bytes());
+        xs.push(v);
+        let mut v = if rexb == 1 { vec![0x41, 0xB8 + lo] } else { vec![0xB8 + lo] };
+        v.extend_from_slice(&(next() as u32).to_le_bytes());
+        xs.push(v);
+        let mut v = vec![0x48 | rexb, 0xC7, 0xC0 + lo];
+        v.extend_from_slice(&(next() as u32).to_le_bytes());
+        xs.push(v);
+        xs.push(if rexb == 1 { vec![0x41, 0xFF, 0xE0 + lo] } else { vec![0xFF, 0xE0 + lo] });
+    }
+    xs.push(vec![0x6A, 0x01]);
+    xs.push(vec![0x6A, 0xFF]);
+    xs.push(vec![0x68, 0x78, 0x56, 0x34, 0x92]);
+    xs.push(vec![0x90]);
+    xs.push(vec![0xF3, 0x0F, 0x1E, 0xFA]);
+    xs.push(vec![0x31, 0xC0]);
+    xs.push(vec![0xB0, 0x01]);
     for _ in 0..500 {
         let r = next();
         xs.push(match r % 4 {
@@ -243,18 +264,27 @@ pub fn cmd() -> i32 {
                 let mine = o.trace.first().cloned().unwrap_or_default();
                 let body = mine.splitn(2, ": ").nth(1).unwrap_or("").to_string();
                 let t: Vec<&str> = l.split_whitespace().collect();
+                // (a `jmp reg` of a register the sequence has not set is "unknown" to the follower;
+                // its text is still in the trace)
+                let body = body.trim_end_matches(" (not a permitted form)").to_string();
+                let is_reg = |s: &str| s.starts_with('r') || s.starts_with('e');
                 let ok = match t.as_slice() {
                     ["ret"] | ["retq"] => body == "ret",
-                    ["jmp", "rax"] => body == "jmp rax",
+                    ["nop"] => body == "nop",
+                    ["endbr64"] => body == "endbr64",
+                    ["xor", "eax,", "eax"] => body == "xor eax, eax",
+                    ["jmp", r] if is_reg(r) => body == format!("jmp {r}") || body.starts_with(".byte"),
                     ["jmp", rel] => {
                         // llvm prints the rel32 displacement; mine prints the destination for pc=16
                         let rel = num(rel).unwrap_or(i128::MAX);
                         let dst = (16i128 + 5 + rel) as u64;
                         body == format!("jmp {dst:#x}")
                     }
-                    ["movabs", "rax,", imm] => body == format!("movabs rax, {:#x}", num(imm).unwrap_or(-1) as u64),
-                    ["mov", "rax,", imm] => body == format!("mov rax, {:#x}", num(imm).unwrap_or(0) as i64 as u64),
-                    ["mov", "eax,", imm] => body == format!("mov eax, {:#x}", num(imm).unwrap_or(-1) as u64 & 0xFFFF_FFFF),
+                    ["push", imm] => body == format!("push {:#x}", num(imm).unwrap_or(0) as i64 as u64),
+                    ["movabs", r, imm] => body == format!("movabs {} {:#x}", r, num(imm).unwrap_or(-1) as u64),
+                    ["mov", "al,", imm] => body == format!("mov al, {:#x}", num(imm).unwrap_or(-1) as u64 & 0xFF),
+                    ["mov", r, imm] if r.starts_with('e') || r.ends_with("d,") => body == format!("mov {} {:#x}", r, num(imm).unwrap_or(-1) as u64 & 0xFFFF_FFFF),
+                    ["mov", r, imm] => body == format!("mov {} {:#x}", r, num(imm).unwrap_or(0) as i64 as u64),
                     _ => false,
                 };
                 if !ok {
